@@ -26,6 +26,7 @@ structure RebalanceOut (p : Params K) (h : Nat) (keys1 : List K) (kids1 : List (
   shape : ∀ c ∈ kids3, Shape p h c
   flat : kids3.flatMap (flatten h) = kids1.flatMap (flatten h)
   klen : keys3.length + (lf + inf) = keys1.length
+  free_le : lf + inf ≤ 1
   lcnt : sumMap (leafCount h) kids3 + lf = sumMap (leafCount h) kids1
   icnt : sumMap (innerCount h) kids3 + inf = sumMap (innerCount h) kids1
 
@@ -121,7 +122,7 @@ theorem rebalance_leaf (p : Params K) (pv : p.Valid) (keys1 : List K) (kids1 : L
   · -- no underflow: nothing to do
     have := hfull hu
     subst this
-    refine ⟨_, keys1, kids1, 0, 0, rfl, rfl, rfl, ⟨hk, ?_, rfl, rfl, rfl, rfl⟩⟩
+    refine ⟨_, keys1, kids1, 0, 0, rfl, rfl, rfl, ⟨hk, ?_, rfl, rfl, by omega, rfl, rfl⟩⟩
     intro x hx
     obtain ⟨i, hi, rfl⟩ := List.getElem_of_mem hx
     by_cases his : i = slot
@@ -157,7 +158,7 @@ theorem rebalance_leaf (p : Params K) (pv : p.Valid) (keys1 : List K) (kids1 : L
           (by simp only [BNode.slotuse, List.length_append]; omega) (by simp [BNode.slotuse]) hKA']
         simp [BNode.lastKey?, he, BNode.isLeaf]
       · obtain ⟨hA', hB'⟩ := shape_around hsh (Or.inr rfl)
-        refine ⟨?_, ?_, by simp [flatten], ?_, ?_, by simp [sumMap, innerCount]⟩
+        refine ⟨?_, ?_, by simp [flatten], ?_, by omega, ?_, by simp [sumMap, innerCount]⟩
         · simp only [List.length_append, List.length_cons, List.length_set]; omega
         · intro x hx
           simp only [List.mem_append, List.mem_cons] at hx
@@ -188,7 +189,7 @@ theorem rebalance_leaf (p : Params K) (pv : p.Valid) (keys1 : List K) (kids1 : L
           (by simp only [BNode.slotuse, List.length_append]; omega) (by simp [BNode.slotuse]) hKA]
         simp [BNode.lastKey?, he, BNode.isLeaf]
       · obtain ⟨hA', hB'⟩ := shape_around hsh (Or.inl rfl)
-        refine ⟨?_, ?_, by simp [flatten], ?_, ?_, by simp [sumMap, innerCount]⟩
+        refine ⟨?_, ?_, by simp [flatten], ?_, by omega, ?_, by simp [sumMap, innerCount]⟩
         · simp only [List.length_append, List.length_cons, List.length_set]; omega
         · intro x hx
           simp only [List.mem_append, List.mem_cons] at hx
@@ -219,7 +220,7 @@ theorem rebalance_leaf (p : Params K) (pv : p.Valid) (keys1 : List K) (kids1 : L
       · simp only [applyFix, e1, e2, he, hlt, if_true]
         simp
       · obtain ⟨hA', hB'⟩ := shape_around hsh (Or.inl rfl)
-        refine ⟨?_, ?_, ?_, ?_, by simp [sumMap, leafCount], by simp [sumMap, innerCount]⟩
+        refine ⟨?_, ?_, ?_, ?_, by omega, by simp [sumMap, leafCount], by simp [sumMap, innerCount]⟩
         · simp only [List.length_append, List.length_cons, List.length_set]; omega
         · intro x hx
           simp only [List.mem_append, List.mem_cons] at hx
@@ -251,7 +252,7 @@ theorem rebalance_leaf (p : Params K) (pv : p.Valid) (keys1 : List K) (kids1 : L
       · simp only [applyFix, Nat.add_one_ne_zero, if_false, e1, e2, he]
         simp
       · obtain ⟨hA', hB'⟩ := shape_around hsh (Or.inr rfl)
-        refine ⟨?_, ?_, ?_, ?_, by simp [sumMap, leafCount], by simp [sumMap, innerCount]⟩
+        refine ⟨?_, ?_, ?_, ?_, by omega, by simp [sumMap, leafCount], by simp [sumMap, innerCount]⟩
         · simp only [List.length_append, List.length_cons, List.length_set]; omega
         · intro x hx
           simp only [List.mem_append, List.mem_cons] at hx
@@ -299,7 +300,7 @@ theorem rebalance_inner (p : Params K) (pv : p.Valid) (h l : Nat) (hl : l ≠ 1)
   by_cases hu : p.innerMin ≤ ck.length
   · have := hfull hu
     subst this
-    refine ⟨_, keys1, kids1, 0, 0, rfl, rfl, by simp [fixMerge], ⟨hk, ?_, rfl, rfl, rfl, rfl⟩⟩
+    refine ⟨_, keys1, kids1, 0, 0, rfl, rfl, by simp [fixMerge], ⟨hk, ?_, rfl, rfl, by omega, rfl, rfl⟩⟩
     intro x hx
     obtain ⟨i, hi, rfl⟩ := List.getElem_of_mem hx
     by_cases his : i = slot
@@ -336,7 +337,7 @@ theorem rebalance_inner (p : Params K) (pv : p.Valid) (h l : Nat) (hl : l ≠ 1)
           (by simp [BNode.slotuse]) (by simp [BNode.slotuse]) hKA']
         simp [hl, BNode.isLeaf]
       · obtain ⟨hA', hB'⟩ := shape_around hsh (Or.inr rfl)
-        refine ⟨?_, ?_, by simp [flatten], ?_, ?_, ?_⟩
+        refine ⟨?_, ?_, by simp [flatten], ?_, by omega, ?_, ?_⟩
         · simp only [List.length_append, List.length_cons]; omega
         · intro x hx
           simp only [List.mem_append, List.mem_cons] at hx
@@ -374,7 +375,7 @@ theorem rebalance_inner (p : Params K) (pv : p.Valid) (h l : Nat) (hl : l ≠ 1)
           (by simp [BNode.slotuse]) (by simp [BNode.slotuse]) hKA]
         simp [hl, BNode.isLeaf]
       · obtain ⟨hA', hB'⟩ := shape_around hsh (Or.inl rfl)
-        refine ⟨?_, ?_, by simp [flatten], ?_, ?_, ?_⟩
+        refine ⟨?_, ?_, by simp [flatten], ?_, by omega, ?_, ?_⟩
         · simp only [List.length_append, List.length_cons]; omega
         · intro x hx
           simp only [List.mem_append, List.mem_cons] at hx
@@ -417,7 +418,7 @@ theorem rebalance_inner (p : Params K) (pv : p.Valid) (h l : Nat) (hl : l ≠ 1)
         rw [if_neg (by omega), List.getElem?_eq_getElem hup]
         simp
       · obtain ⟨hA', hB'⟩ := shape_around hsh (Or.inl rfl)
-        refine ⟨?_, ?_, ?_, ?_, ?_, ?_⟩
+        refine ⟨?_, ?_, ?_, ?_, by omega, ?_, ?_⟩
         · simp only [List.length_append, List.length_cons, List.length_set]; omega
         · intro x hx
           simp only [List.mem_append, List.mem_cons] at hx
@@ -476,7 +477,7 @@ theorem rebalance_inner (p : Params K) (pv : p.Valid) (h l : Nat) (hl : l ≠ 1)
         rw [if_neg (by omega), List.getElem?_eq_getElem hup]
         simp
       · obtain ⟨hA', hB'⟩ := shape_around hsh (Or.inr rfl)
-        refine ⟨?_, ?_, ?_, ?_, ?_, ?_⟩
+        refine ⟨?_, ?_, ?_, ?_, by omega, ?_, ?_⟩
         · simp only [List.length_append, List.length_cons, List.length_set]; omega
         · intro x hx
           simp only [List.mem_append, List.mem_cons] at hx
